@@ -1,19 +1,5 @@
 // ---------------------------------------------------------------- language theorem: the epsilon-elimination automaton accepts what the epsilon-NFA accepts
 
-// ---- the automaton handed to the minimizer, read as find_from reads it (U-dfa: step1 / reach / acc)
-pub open spec fn d_step(d: CompiledDfa, cls: ClsF, s: int, c: char, t: int) -> bool {
-    0 <= s < d.states@.len() && 0 <= t <= u32::MAX
-        && exists|cc: CharClassID| #[trigger] d.states@[s].transitions@.contains((cc, StateSetID(t as u32))) && cls(cc, c)
-}
-pub open spec fn d_reach(d: CompiledDfa, cls: ClsF, w: Seq<char>, t: int) -> bool
-    decreases w.len()
-{
-    if w.len() == 0 { t == 0 } else { exists|s: int| d_reach(d, cls, w.drop_last(), s) && #[trigger] d_step(d, cls, s, w.last(), t) }
-}
-pub open spec fn d_acc(d: CompiledDfa, cls: ClsF, w: Seq<char>, tid: TerminalID) -> bool {
-    exists|t: int| 0 <= t < d.states@.len() && #[trigger] d_reach(d, cls, w, t) && d.end_states@[t] == (true, tid)
-}
-
 // ---- the epsilon-NFA (closures folded into `reach`): where the automaton can stand right after the last character of w
 pub open spec fn g_step(g: Gr, cls: ClsF, a: int, c: char, t: int) -> bool {
     exists|cc: CharClassID, tg: StateID| #[trigger] fires(g, a, cc, tg) && cls(cc, c) && tg.0 == t
